@@ -2,12 +2,14 @@ package chain
 
 import (
 	"fmt"
+	"strings"
 	"time"
 
 	"github.com/cometbft/cometbft/abci/types"
 	"pgregory.net/rapid"
 
 	beacon "github.com/oasisprotocol/oasis-core/go/beacon/api"
+	registryAPI "github.com/oasisprotocol/oasis-core/go/registry/api"
 	"github.com/oasisprotocol/oasis-core/go/common/crypto/signature"
 )
 
@@ -25,6 +27,9 @@ type Sim struct {
 	abandoned map[*NodeKeys]bool
 	vrfSitOut map[*NodeKeys]sitOut
 	rd        *roundDriver
+	// darkEpoch: an epoch in which the operators of all nodes but the anchor's are away (no refresh, no VRF proof), so
+	// that the next election finds fewer nodes (profile "rtheavy": committees shrink or vanish at the transition).
+	darkEpoch beacon.EpochTime
 	// Profile tunes generation weights ("", "economy", "hostile", "registry", ...).
 	Profile string
 }
@@ -207,9 +212,21 @@ func (s *Sim) GenBlock(t *rapid.T, view *View, maxTxs int) *BlockGen {
 	g := NewTxGen(s.W, view, s.Profile)
 	if view.Epoch != s.lastRefreshEpoch {
 		s.lastRefreshEpoch = view.Epoch
-		exp := view.Epoch + beacon.EpochTime(s.W.Spec.MaxNodeExp)
+		if strings.Contains(s.Profile, "rtheavy") && s.W.Runtime != nil && view.Epoch > 1 && rapid.IntRange(0, 3).Draw(t, "darkEpoch") == 0 {
+			s.darkEpoch = view.Epoch
+			bg.Notes = append(bg.Notes, "dark epoch")
+		}
 		for i, ek := range s.W.Entities {
 			for _, nk := range ek.Nodes {
+				// the anchor registers for as long as allowed; other operators choose shorter registrations as well, so
+				// that a missed refresh expires the node at one of the next transitions
+				exp := view.Epoch + beacon.EpochTime(s.W.Spec.MaxNodeExp)
+				if i != 0 {
+					exp = view.Epoch + beacon.EpochTime(rapid.IntRange(1, int(s.W.Spec.MaxNodeExp)).Draw(t, "refreshExp"))
+				}
+				if i != 0 && s.darkEpoch == view.Epoch {
+					continue
+				}
 				// the anchor entity always refreshes; others mostly do (expiry is part of the histories)
 				// and a node's operator occasionally goes away for good, so that the node expires and is removed
 				if i != 0 && !s.abandoned[nk] && rapid.IntRange(0, 9).Draw(t, "abandon") == 0 {
@@ -225,12 +242,21 @@ func (s *Sim) GenBlock(t *rapid.T, view *View, maxTxs int) *BlockGen {
 			}
 		}
 	}
+	// the anchor's operator unfreezes its node as soon as that is possible (runtime liveness failures freeze nodes)
+	if ank := s.W.Entities[0].Nodes[0]; ank != nil {
+		if st, err := view.Reg.NodeStatus(view.Ctx(), ank.ID.Public()); err == nil && st != nil && st.IsFrozen() && st.FreezeEndTime <= view.Epoch {
+			ek := s.W.Entities[0]
+			d := g.sign(ek.Signer, ek.Address(), registryAPI.MethodUnfreezeNode, &registryAPI.UnfreezeNode{NodeID: ank.ID.Public()}, ek.Name)
+			d.Note = "liveness refresh"
+			bg.Txs = append(bg.Txs, d)
+		}
+	}
 	// VRF proofs: every node that has not yet proved for the current alpha does so (most of the time), once the
 	// submission window is open; the anchor node always does
 	if vs := view.VRFState(); s.W.Spec.VRF && vs != nil && b.Height > vs.SubmitAfter {
 		for i, ek := range s.W.Entities {
 			for j, nk := range ek.Nodes {
-				if vs.Pi[nk.ID.Public()] != nil || s.abandoned[nk] {
+				if vs.Pi[nk.ID.Public()] != nil || s.abandoned[nk] || (i != 0 && s.darkEpoch == vs.Epoch && s.darkEpoch != 0) {
 					continue
 				}
 				// a node sits out a whole epoch now and then (its entity can then have a compute node with a proof and a
